@@ -135,4 +135,141 @@ theorem chunk_sizes (c : Nat) (hc : 1 ≤ c) (rows : List ρ) (i : Nat)
     · simp [h'] at hs'
   · simp [h] at hs
 
+/-! ## `_chain_from_iterable_of_lists` -/
+
+/-- reversing each list and popping from its end yields the items in their original order, list
+    after list (empty lists contribute nothing) -/
+theorem chain_preserves_order (ls : List (List β)) :
+    chain (ls.map fun l => (.ok l : Except ε (List β))) = (ls.flatten, none) := by
+  induction ls with
+  | nil => rfl
+  | cons l ls ih => simp [chain, drainElement_eq, ih]
+
+/-- an exception delivered by the result iterator surfaces after exactly the items of the lists
+    before it; nothing after it is looked at -/
+theorem chain_stops_at_error (ls : List (List β)) (e : ε) (rest : List (Except ε (List β))) :
+    chain ((ls.map fun l => (.ok l : Except ε (List β))) ++ .error e :: rest) = (ls.flatten, some e) := by
+  induction ls with
+  | nil => rfl
+  | cons l ls ih => simp [chain, drainElement_eq, ih]
+
+/-! ## `map` -/
+
+/-- Main statement, raising functions included.  For every chunk size `c ≥ 1`, every function and
+    every input, `executor.map` yields what the builtin `map` yields, in order; if the builtin
+    `map` raises after `k` items then `executor.map` raises **the same exception**, after the
+    first `⌊k/c⌋·c` of those items (the complete chunks before the failing one). -/
+theorem map_rows_eq_builtin (c : Int) (hc : 1 ≤ c) (fn : ρ → Except ε β) (rows : List ρ) :
+    mapRows c fn rows =
+      match builtinMap fn rows with
+      | (vs, none) => .result vs none
+      | (vs, some e) => .result (vs.take (vs.length / c.toNat * c.toNat)) (some e) := by
+  have hc' : 1 ≤ c.toNat := by omega
+  have key : chain ((getChunks c.toNat rows).map (processChunk fn)) = expected c.toNat (builtinMap fn rows) := by
+    induction rows using chunks_induction c.toNat hc' with
+    | nil => simp [getChunks_nil, chain, expected, builtinMap]
+    | step rows hr ih =>
+      rw [getChunks_step _ _ hc' hr]
+      have := chain_step c.toNat hc' fn (rows.take c.toNat) (rows.drop c.toNat)
+        (by simp [List.length_take]; omega)
+        (by
+          intro h
+          have : 0 < (rows.drop c.toNat).length := List.length_pos_iff.mpr h
+          simp only [List.length_drop] at this
+          simp only [List.length_take]; omega)
+        _ ih
+      rwa [List.take_append_drop] at this
+  have hnot : ¬ c < 1 := by omega
+  simp only [mapRows, hnot, if_false, key, expected]
+  rcases h : builtinMap fn rows with ⟨vs, _ | e⟩ <;> simp
+
+/-- **map == builtin map**: for every `c ≥ 1`, every (non-raising) `f` and every list of
+    iterables, chaining the processed chunks of the zipped input equals mapping `f` over the
+    zipped input, in order. -/
+theorem map_eq (c : Int) (hc : 1 ≤ c) (f : List α → β) (ls : List (List α)) :
+    map (ε := ε) c (fun r => .ok (f r)) ls = .result ((zipAll ls).map f) none := by
+  rw [map, map_rows_eq_builtin c hc, builtinMap_total]
+
+/-- the same, spelled out on the pipeline itself -/
+theorem map_eq_pipeline (c : Nat) (hc : 1 ≤ c) (f : ρ → β) (rows : List ρ) :
+    chain ((getChunks c rows).map (processChunk fun r => (.ok (f r) : Except ε β))) = (rows.map f, none) := by
+  have h := map_rows_eq_builtin (ε := ε) (c : Int) (by omega) (fun r => .ok (f r)) rows
+  rw [builtinMap_total] at h
+  have hnot : ¬ (c : Int) < 1 := by omega
+  simp only [mapRows, hnot, if_false, Int.toNat_natCast] at h
+  injection h with h1 h2
+  exact Prod.ext h1 h2
+
+/-- if the builtin `map` completes, so does `executor.map`, with the same items -/
+theorem map_eq_of_no_raise (c : Int) (hc : 1 ≤ c) (fn : ρ → Except ε β) (rows : List ρ)
+    (h : (builtinMap fn rows).2 = none) :
+    mapRows c fn rows = .result (builtinMap fn rows).1 none := by
+  rw [map_rows_eq_builtin c hc]
+  rcases h' : builtinMap fn rows with ⟨vs, _ | e⟩
+  · rfl
+  · rw [h'] at h; simp at h
+
+/-- one, two and three iterables of *different* element types -/
+theorem map_eq_unary (c : Int) (hc : 1 ≤ c) (f : α → β) (l : List α) :
+    mapRows (ε := ε) c (fun x => .ok (f x)) l = .result (l.map f) none := by
+  rw [map_rows_eq_builtin c hc, builtinMap_total]
+
+theorem map_eq_binary (c : Int) (hc : 1 ≤ c) (f : α → β → γ) (l₁ : List α) (l₂ : List β) :
+    mapRows (ε := ε) c (fun p => .ok (f p.1 p.2)) (l₁.zip l₂) = .result (List.zipWith f l₁ l₂) none := by
+  rw [map_rows_eq_builtin c hc, builtinMap_total]
+  simp only [List.zip, List.map_zipWith]
+
+theorem map_eq_ternary (c : Int) (hc : 1 ≤ c) (f : α → β → γ → δ)
+    (l₁ : List α) (l₂ : List β) (l₃ : List γ) :
+    mapRows (ε := ε) c (fun p => .ok (f p.1 p.2.1 p.2.2)) (l₁.zip (l₂.zip l₃)) =
+      .result (builtinMap3 f l₁ l₂ l₃) none := by
+  have hl : (l₁.zip (l₂.zip l₃)).map (fun p => f p.1 p.2.1 p.2.2) = builtinMap3 f l₁ l₂ l₃ := by
+    induction l₁ generalizing l₂ l₃ with
+    | nil => simp [builtinMap3]
+    | cons x xs ih =>
+      cases l₂ with
+      | nil => simp [builtinMap3]
+      | cons y ys =>
+        cases l₃ with
+        | nil => simp [builtinMap3]
+        | cons z zs => simp [builtinMap3, ih]
+  rw [map_rows_eq_builtin c hc, builtinMap_total, hl]
+
+/-- `chunksize < 1` is rejected with `ValueError` by the call itself, whatever the input … -/
+theorem chunksize_lt_one_rejected (c : Int) (hc : c < 1) (fn : ρ → Except ε β) (rows : List ρ) :
+    mapRows c fn rows = .valueError := by
+  simp [mapRows, hc]
+
+/-- … and nothing else is -/
+theorem valueError_iff (c : Int) (fn : ρ → Except ε β) (rows : List ρ) :
+    mapRows c fn rows = .valueError ↔ c < 1 := by
+  by_cases hc : c < 1 <;> simp [mapRows, hc]
+
+/-! ## non-vacuity: the hypotheses are satisfiable and the statements say something on
+    concrete inputs (evaluated through the definitions, not through the theorems) -/
+
+example : ∃ c : Int, 1 ≤ c := ⟨3, by decide⟩
+example : ∃ ls : List (List Nat), ls ≠ [] := ⟨[[1]], by decide⟩
+example : zipAll [[1, 2, 3], [4, 5], [6, 7, 8]] = [[1, 4, 6], [2, 5, 7]] := by decide
+example : zipAll [[1, 2, 3], [], [6, 7, 8]] = [] := by decide
+example : getChunks 2 [1, 2, 3, 4, 5] = [[1, 2], [3, 4], [5]] := by simp [getChunks]
+example : getChunks 5 [1, 2, 3, 4, 5] = [[1, 2, 3, 4, 5]] := by simp [getChunks]
+example : getChunks 7 [1, 2, 3] = [[1, 2, 3]] := by simp [getChunks]
+example : ∃ i, i < (getChunks 2 [1, 2, 3, 4, 5]).length ∧ i + 1 < (getChunks 2 [1, 2, 3, 4, 5]).length :=
+  ⟨0, by simp [getChunks]⟩
+example : drainElement [1, 2, 3] = [1, 2, 3] := by simp [drainElement, popAll]
+/-- a raising function: items 1, 2 (the complete first chunk), then the exception of item 4;
+    the builtin `map` would have yielded 10, 20, 30 before raising -/
+example :
+    mapRows (ε := String) 2 (fun x : Nat => if x = 4 then .error "boom" else .ok (x * 10)) [1, 2, 3, 4, 5]
+      = .result [10, 20] (some "boom") := by
+  simp [mapRows, getChunks, processChunk, chain, drainElement, popAll]
+example :
+    builtinMap (ε := String) (fun x : Nat => if x = 4 then .error "boom" else .ok (x * 10)) [1, 2, 3, 4, 5]
+      = ([10, 20, 30], some "boom") := by
+  simp [builtinMap]
+example : ∃ (fn : Nat → Except String Nat) (rows : List Nat), rows ≠ [] ∧ (builtinMap fn rows).2 = none :=
+  ⟨fun x => .ok x, [1, 2], by simp, by simp [builtinMap]⟩
+example : mapRows (ε := String) 0 (fun x : Nat => .ok x) [1, 2] = .valueError := by simp [mapRows]
+
 end LokyModel.Chunks
